@@ -314,6 +314,17 @@ func (s *IndexedState) add(ctx *Context, id string, x Map) (string, error) {
 	// after the rule has been replaced.
 	var previousRule Map
 	if previous, have := s.IdToFact[id]; have {
+		if s.remHook != nil && isScheduledRule(previous) && !isScheduledRule(fact) {
+			// A scheduled rule is being replaced by something that
+			// isn't scheduled, so nothing will replace its schedule:
+			// whoever scheduled it should hear that it's gone.
+			s.withPrivilege(ctx)
+			err := s.remHook(ctx, s, id)
+			s.withoutPrivilege(ctx)
+			if err != nil {
+				return "", err
+			}
+		}
 		if previousRule, _ = ExtractRule(ctx, previous, false); previousRule != nil {
 			if err = s.unindexRule(ctx, id, previousRule); err != nil {
 				return "", err
